@@ -936,6 +936,8 @@ var cbTypePools = [][]string{
 	{"", "message", "Message", " message"},
 	{"", "message", "x", "messages"},
 	{"message", "", "MESSAGE", "mess"},
+	{"", "*", "x", "**"},
+	{"*", "", "all", "?"},
 }
 
 // rounds of operations that meet (kind 3); count is called with the class of every round
